@@ -669,14 +669,24 @@ class FrameChecker(ast.NodeVisitor):
         # must-call obligations: required statements at the top level of the body (unconditional)
         top = []          # (text, an earlier statement may leave the function)
         leaves = False
+
+        def flat(stmts):
+            # statements that run whenever the function runs to its end: the top level, and the bodies of `with` blocks and of
+            # `try` blocks (`try: model.clear() except AttributeError: pass` / `with suppress(AttributeError): model.clear()`:
+            # the reset points guard optional members this way)
+            for st_ in stmts:
+                yield st_
+                if isinstance(st_, (ast.With, ast.AsyncWith)):
+                    yield from flat(st_.body)
+                elif isinstance(st_, ast.Try):
+                    yield from flat(st_.body)
+                    yield from flat(st_.finalbody)
         for st in self.fn.body:
-            try:
-                top.append((ast.unparse(st), leaves))
-                if isinstance(st, ast.Try) and not st.handlers == [] and len(st.body) == 1:
-                    # `try: <stmt> except X: pass` counts as <stmt> (the reset points guard optional members this way)
-                    top.append((ast.unparse(st.body[0]), leaves))
-            except Exception:
-                pass
+            for st_ in flat([st]):
+                try:
+                    top.append((ast.unparse(st_), leaves))
+                except Exception:
+                    pass
             if any(isinstance(n, (ast.Return, ast.Raise)) for n in ast.walk(st)):
                 leaves = True
         for k, text in enumerate(self.c.get("must_call", [])):
